@@ -37,6 +37,7 @@ structure DState where
   expectCom : Option String := none
   expectVer : Option String := none
   expectEmission : Option Int := none   -- the emission counter the EndBlock model predicts for the next commit
+  keyEdited : Bool := false             -- an EditCandidatePublicKey (type 20) was accepted in the current block
   comTable : List (String × Int) := []
   tickers : List (String × String) := []   -- ticker ↦ owner as it follows from the accepted transactions (RestartMonitor.ownerGate)
   nCommits : Nat := 0
@@ -126,6 +127,16 @@ def txMonitors (P : Params) (lt : LastTx) (chs : List Change) (dOld : Dump) (blo
       if amountOf c.key c.new < amountOf c.key c.old && a != senderHex then
         out := s!"VIOL C05 foreign-waitlist-reduced {c.key} type={t.typ} sender={senderHex}" :: out
     | _ => pure ()
+  -- C02 / C21: no delivery may leave a negative balance behind (the commit would refuse it, or store its absolute value);
+  -- for a check redemption the overdrawn account is the issuer, who then did not pay the value and the fee he owed
+  for c in chs do
+    match words c.key with
+    | ["b", a, _] =>
+      if amountOf c.key c.new < 0 then
+        out := s!"VIOL C02 negative-balance-after-tx {c.key} {c.new.getD "0"} type={t.typ} code={lt.code}" :: out
+        if t.typ == 9 && a == issuerHex then
+          out := s!"VIOL C21 redeemed-check-overdraws-issuer {c.key} {c.old.getD "0"}->{c.new.getD "0"} value={kvGet lt.kvs "k.value"} code={lt.code}" :: out
+    | _ => pure ()
   -- C27: the commission in price-table terms
   let priceTag := kvGet lt.kvs "tx.commission_price"
   if priceTag != "" then
@@ -139,6 +150,20 @@ def txMonitors (P : Params) (lt : LastTx) (chs : List Change) (dOld : Dump) (blo
       | some c => intD (c.new.getD "0") - intD (c.old.getD "0")
       | none => 0
     if dr != inBase - burned then out := s!"VIOL C27 fee-pool-delta got={dr} expected={inBase - burned} type={t.typ}" :: out
+    -- C27: a table denominated in a custom coin: the whole amount (gas price included) is converted through the pool of that
+    -- coin as it stands before the transaction (pools with limit orders are left to the model comparison)
+    let tableCoin := ((comTable.lookup "coin").getD 0).toNat
+    -- (a fee exchanged through the pool of the gas coin reports what that exchange really returned, a few pips more)
+    if tableCoin != 0 && priceTag != "" && kvGet lt.kvs "tx.commission_in_base_coin" != "" && kvGet lt.kvs "tx.commission_conversion" != "pool" then
+      let s0 : State := State.ofDump dOld
+      if !(pairHasOrders s0 tableCoin 0) then
+        match poolRes s0 tableCoin 0 with
+        | some (r0, r1) =>
+          match checkSwapQuote r0 r1 (intD priceTag) 0 false with
+          | .ok (.ok want) =>
+            if want != inBase then out := s!"VIOL C27 commission-conversion in-base={inBase} expected={want} price={priceTag} table-coin={tableCoin} gasprice={t.gasPrice} type={t.typ}" :: out
+          | _ => pure ()
+        | none => pure ()
     if burned != 0 && deltaOf chs s!"b {toHexPad 0 40} 0" != burned then
       out := s!"VIOL C27 ticker-fee-not-burned burned={burned} zero-address-delta={deltaOf chs s!"b {toHexPad 0 40} 0"}" :: out
     -- C15: slippage limits and tags
@@ -392,9 +417,11 @@ partial def loop (h : IO.FS.Stream) (out : IO.FS.Stream) (ds : DState) : IO Unit
         ds := { ds with expectCom := winnerAt old ds.begin.signed ds.begin.height old.cvotes,
                         expectVer := winnerAt old ds.begin.signed ds.begin.height old.uvotes }
         -- C01 block level: the EndBlock model (MinterModel/Block.lean) on the live state before EndBlock against the live state after it
-        let changedKeys := match ds.committed with
+        -- the node's in-memory flag: a candidate's key changed since the last commit. A candidate declared AND re-keyed in
+        -- the same block is not in the previous commit, hence also: a type-20 transaction was accepted in this block
+        let changedKeys := ds.keyEdited || (match ds.committed with
           | some prev => old.candidates.any (fun c => prev.candidates.any (fun d => d.id == c.id && d.pubkey != c.pubkey))
-          | none => false
+          | none => false)
         let newVersion : Option String :=
           if new.versions == old.versions then none
           else match ((new.versions.splitOn ",").getLast?.getD "").splitOn "@" with
@@ -463,6 +490,9 @@ partial def loop (h : IO.FS.Stream) (out : IO.FS.Stream) (ds : DState) : IO Unit
         let charged := chs.any (fun c => c.old != c.new)
         if raw != "" then
           let earlier := ds.seenRaw.filter (fun e => e.1 == raw)
+          -- C04: the same signed bytes take effect at most once
+          if lt.code == 0 && earlier.any (fun e => e.2.1 == 0) then
+            out.putStrLn s!"VIOL C04 accepted-twice type={lt.t.typ} sender={toHexPad lt.t.sender 40} nonce={lt.t.nonce} deliveries={earlier.length + 1}"
           if charged then
             if earlier.any (fun e => e.2.1 == 0) then
               out.putStrLn s!"VIOL C26 charged-after-success type={lt.t.typ} code={lt.code} sender={toHexPad lt.t.sender 40} nonce={lt.t.nonce}"
@@ -507,7 +537,7 @@ partial def loop (h : IO.FS.Stream) (out : IO.FS.Stream) (ds : DState) : IO Unit
     out.putStrLn "."
     out.flush
     let breq : BeginReq := { height := natD (kvGet a "h"), votes := votes, byz := byz }
-    loop h out { ds with block := natD (kvGet a "h"), nOps := ds.nOps + 1, begin := bi, breq := breq }
+    loop h out { ds with block := natD (kvGet a "h"), nOps := ds.nOps + 1, begin := bi, breq := breq, keyEdited := false }
   | "X" :: "restart-live" :: key :: rest =>
     -- what the stopped process held in memory against what the restarted one holds (harness/restartlive.go)
     let a := kv (" ".intercalate rest)
@@ -519,6 +549,13 @@ partial def loop (h : IO.FS.Stream) (out : IO.FS.Stream) (ds : DState) : IO Unit
     loop h out ds
   | "X" :: "divergence" :: rest =>
     out.putStrLn ("VIOL C09 cache-vs-disk " ++ " ".intercalate rest)
+    out.putStrLn "."
+    out.flush
+    loop h out ds
+  | "X" :: "viol" :: rest =>
+    -- a monitor evaluated by the harness on the node's own observations (CheckTx changed the state; a ticker owner differs
+    -- between memory and disk): `X viol Cxx what details…`
+    out.putStrLn ("VIOL " ++ " ".intercalate rest)
     out.putStrLn "."
     out.flush
     loop h out ds
@@ -545,12 +582,18 @@ partial def loop (h : IO.FS.Stream) (out : IO.FS.Stream) (ds : DState) : IO Unit
         out.putStrLn s!"VIOL C06 checktx-delivertx-disagree check={k} deliver={goCode} type={kvGet a "typ"}"
     | none => pure ()
     let lastK := ds.lastK
-    let mut ds := { ds with nOps := ds.nOps + 1, lastK := none, lastTx := some { t := TxIn.ofKV a, code := goCode, kvs := a } }
+    let mut ds := { ds with nOps := ds.nOps + 1, lastK := none, lastTx := some { t := TxIn.ofKV a, code := goCode, kvs := a },
+                            keyEdited := ds.keyEdited || (goCode == 0 && kvGet a "typ" == "20") }
     match ds.model with
     | none => ds := { ds with nStaleSkipped := ds.nStaleSkipped + 1 }
     | some m =>
       let t := TxIn.ofKV a
-      let (ds', r) ← runDeliver h out ds m t 12
+      -- model gap: the node converts the ticker fee of CreateCoin/CreateToken AFTER the handler ran; when the price table is
+      -- denominated in a custom coin and the commission was exchanged through that coin's pool, the conversion sees the moved
+      -- pool, the model (tickerBurn on the state before the transaction) does not. Such deliveries are adopted, not compared.
+      let gap := (t.typ == 5 || t.typ == 30) && priceCoin m != 0 && t.comCoin == priceCoin m
+      let (ds', r) ← if gap then pure (ds, (Except.error (Stop.unmodelled "ticker fee converted after the commission moved the price-table pool") : Except Stop Outcome))
+                     else runDeliver h out ds m t 12
       ds := ds'
       match r with
       | .error (.unmodelled w) =>
